@@ -1,7 +1,7 @@
 SPEC = {
     "claimed": True,
     "gen": [],
-    "theorems": ['C02_calls_return6', 'C02_calls_return7', 'C02_resend_terminates', 'C02_deadline_finite6', 'C02_deadline_finite7', 'C02_nonvacuous'],
+    "theorems": ['C02_calls_return6', 'C02_calls_return7', 'C02_resend_terminates', 'C02_deadline_finite6', 'C02_deadline_finite7', 'C02_catch_up', 'C02_catch_up_reachable6', 'C02_nonvacuous'],
     "allowed_axioms": [],
     "extract": {
         "LibTw2.Model.Conn6": ["step", "needs_tick", "conn6_new"],
